@@ -225,7 +225,7 @@ def reserved_unused_words(F, lm) -> Set[str]:
                 if not (isinstance(table, dict) and set(table.items()) >= set(lm.reserved.items())):
                     continue
                 for k, sub in zip(v.keys, v.values):
-                    if k is None:
+                    if k is None and isinstance(sub, (ast.Name, ast.Attribute)):
                         try:
                             d = eval_literal(F, m, sub)
                         except NotLiteral:
